@@ -95,6 +95,15 @@ Proof.
   cbn [obj_map]. split; [exact (stable_apply_update _ _ Hst2)|exact (stable_no_write c kc parent _ _ Hst2)].
 Qed.
 
+(* for a desired object without a last-applied annotation of its own the side
+   condition is one on the hook's object itself *)
+Lemma desired_ok_nullify d :
+  desired_ok d = true -> nullify_last_applied d = d /\ desired_ok (nullify_last_applied d) = true.
+Proof.
+  intros H. pose proof H as H'. apply andb_prop in H' as [_ Hc].
+  rewrite (nullify_clean d Hc). split; [reflexivity|exact H].
+Qed.
+
 (* the wording without desired_ok: a desired object that specifies a status
    list map.  The first ApplyUpdate succeeds (the status is reverted to the
    observed one), the second — now with that desired object as last applied —
@@ -109,8 +118,11 @@ Definition cex2_d : amap :=
   [("metadata", JObj [("name", JStr "t")]);
    ("status", JArr [JObj [("name", JStr "a"); ("x", JInt 1)]])].
 
+Definition res_or_nil (r : res amap) : amap := match r with Ok n => n | _ => [] end.
+
 Example C01_update_fixpoint_refuted :
-  exists n om,
+  let n := res_or_nil (apply_update cex2_old cex2_d) in
+  exists om,
     apply_update cex2_old cex2_d = Ok n /\
     alookup "metadata" cex2_old = Some (JObj om) /\
     get_last_applied cex2_old = Ok cex2_last /\
@@ -119,7 +131,7 @@ Example C01_update_fixpoint_refuted :
     wf_json (JObj (nullify_last_applied cex2_d)) = true /\ wf_json (JObj cex2_old) = true /\
     wf_json cex2_last = true /\
     apply_update n cex2_d = Err.
-Proof. do 2 eexists. vm_compute. repeat split; reflexivity. Qed.
+Proof. eexists. vm_compute. repeat split; reflexivity. Qed.
 
 (* ------------------------------------------------------------------ *)
 (* 3. a created child is a fixpoint                                    *)
@@ -175,6 +187,11 @@ Qed.
 (* ------------------------------------------------------------------ *)
 (* concrete controller, parent and child used by the examples          *)
 (* ------------------------------------------------------------------ *)
+Definition create_body (a : child_action) : json := match a with ActCreate b => b | _ => JNull end.
+Definition update_body (a : child_action) : json := match a with ActUpdate b => b | _ => JNull end.
+Definition is_create (a : child_action) : bool := match a with ActCreate _ => true | _ => false end.
+Definition is_update (a : child_action) : bool := match a with ActUpdate _ => true | _ => false end.
+
 Definition ex_kc (method : string) : child_cfg := mkChild "v1" "things" "Thing" true method.
 Definition ex_cfg (method : string) : ccfg :=
   mkCfg "cc" "example.com/v1" "Parent" "parents" true true true sel_everything
@@ -198,12 +215,13 @@ Definition cex3_d : amap :=
                       ("annotations", JObj [(last_applied_annotation, JStr "x")])])].
 
 Example C01_created_child_refuted :
-  exists b u,
-    self_wf (JObj cex3_d) = true /\ wf_json (JObj cex3_d) = true /\
-    child_decision (ex_cfg "InPlace") (ex_kc "InPlace") ex_parent None (JObj cex3_d) = ActCreate b /\
-    child_decision (ex_cfg "InPlace") (ex_kc "InPlace") ex_parent
-                   (Some (server_assign "cu" "1" "2026-01-01T00:00:00Z" 1 b)) (JObj cex3_d) = ActUpdate u.
-Proof. do 2 eexists. vm_compute. repeat split; reflexivity. Qed.
+  let c := ex_cfg "InPlace" in let kc := ex_kc "InPlace" in
+  let b := create_body (child_decision c kc ex_parent None (JObj cex3_d)) in
+  self_wf (JObj cex3_d) = true /\ wf_json (JObj cex3_d) = true /\
+  child_decision c kc ex_parent None (JObj cex3_d) = ActCreate b /\
+  is_update (child_decision c kc ex_parent
+               (Some (server_assign "cu" "1" "2026-01-01T00:00:00Z" 1 b)) (JObj cex3_d)) = true.
+Proof. vm_compute. repeat split; reflexivity. Qed.
 
 (* ------------------------------------------------------------------ *)
 (* 4. ledger D17: float64 1.0 in the hook answer                       *)
@@ -232,42 +250,41 @@ Definition stored_update (rv : string) (b : json) : json := wire1 (server_bump r
 Example C01_float_refuted :
   let c := ex_cfg "InPlace" in let kc := ex_kc "InPlace" in
   let d := ex_d (JFloat "1") in
-  exists b u1 u2,
-    child_decision c kc ex_parent None d = ActCreate b /\
-    child_decision c kc ex_parent (Some (stored_create "1" b)) d = ActUpdate u1 /\
-    stored_update "1" u1 = stored_create "1" b /\
-    child_decision c kc ex_parent (Some (stored_update "2" u1)) d = ActUpdate u2 /\
-    stored_update "2" u2 = stored_update "2" u1.
-Proof. do 3 eexists. vm_compute. repeat split; reflexivity. Qed.
+  let b := create_body (child_decision c kc ex_parent None d) in
+  let a1 := child_decision c kc ex_parent (Some (stored_create "1" b)) d in
+  let a2 := child_decision c kc ex_parent (Some (stored_update "2" (update_body a1))) d in
+  child_decision c kc ex_parent None d = ActCreate b /\
+  is_update a1 = true /\
+  stored_update "1" (update_body a1) = stored_create "1" b /\
+  is_update a2 = true /\
+  stored_update "2" (update_body a2) = stored_update "2" (update_body a1).
+Proof. vm_compute. repeat split; reflexivity. Qed.
 
 (* the same under Recreate: the stored child is deleted on every other sync *)
 Example C01_float_refuted_recreate :
   let c := ex_cfg "Recreate" in let kc := ex_kc "Recreate" in
   let d := ex_d (JFloat "1") in
-  exists b,
-    child_decision c kc ex_parent None d = ActCreate b /\
-    child_decision c kc ex_parent (Some (stored_create "1" b)) d = ActDelete "cu".
-Proof. eexists. vm_compute. repeat split; reflexivity. Qed.
+  let b := create_body (child_decision c kc ex_parent None d) in
+  child_decision c kc ex_parent None d = ActCreate b /\
+  child_decision c kc ex_parent (Some (stored_create "1" b)) d = ActDelete "cu".
+Proof. vm_compute. repeat split; reflexivity. Qed.
 
 (* with replicas: 1 (an integer) the stored child is left alone — and the side
    conditions of theorem 3 hold for this desired object *)
 Example C01_int_is_quiet :
   let c := ex_cfg "InPlace" in let kc := ex_kc "InPlace" in
   let d := ex_d (JInt 1) in
-  exists b,
-    child_decision c kc ex_parent None d = ActCreate b /\
-    child_decision c kc ex_parent (Some (stored_create "1" b)) d = ActNone /\
-    self_wf d = true /\ wf_json d = true /\ desired_ok (obj_map d) = true.
-Proof. eexists. vm_compute. repeat split; reflexivity. Qed.
+  let b := create_body (child_decision c kc ex_parent None d) in
+  child_decision c kc ex_parent None d = ActCreate b /\
+  child_decision c kc ex_parent (Some (stored_create "1" b)) d = ActNone /\
+  self_wf d = true /\ wf_json d = true /\ desired_ok (obj_map d) = true.
+Proof. vm_compute. repeat split; reflexivity. Qed.
 
 (* ------------------------------------------------------------------ *)
 (* non-vacuity of 1: a converged state                                 *)
 (* ------------------------------------------------------------------ *)
 Definition ex_child : json :=
-  match child_decision (ex_cfg "InPlace") (ex_kc "InPlace") ex_parent None (ex_d (JInt 1)) with
-  | ActCreate b => stored_create "1" b
-  | _ => JNull
-  end.
+  stored_create "1" (create_body (child_decision (ex_cfg "InPlace") (ex_kc "InPlace") ex_parent None (ex_d (JInt 1)))).
 Definition ex_cache : cache := mkCache (Some ex_parent) [("things.v1", [ex_child])].
 Definition ex_body : json := JObj [("status", JObj []); ("children", JArr [ex_d (JInt 1)])].
 Definition ex_resp : hook_resp :=
@@ -284,6 +301,49 @@ Example C01_converged_inhabited :
 Proof.
   split; [split; [reflexivity|vm_compute; reflexivity]|].
   split; [eexists; split; [reflexivity|vm_compute; reflexivity]|vm_compute; reflexivity].
+Qed.
+
+(* non-vacuity of 2: the stored child with replicas 1, the hook now says 2 *)
+Example C01_update_hyps_inhabited :
+  let old := obj_map ex_child in
+  let d := obj_map (ex_d (JInt 2)) in
+  let n := res_or_nil (apply_update old d) in
+  let last := match get_last_applied old with Ok l => l | _ => JNull end in
+  apply_update old d = Ok n /\
+  jeqb (JObj n) (JObj old) = false /\
+  (exists om, alookup "metadata" old = Some (JObj om)) /\
+  get_last_applied old = Ok last /\
+  null_okb (JObj (nullify_last_applied d)) (JObj old) last = true /\
+  Hb (JObj (nullify_last_applied d)) (JObj old) last = true /\
+  wf_json (JObj (nullify_last_applied d)) = true /\ wf_json (JObj old) = true /\ wf_json last = true /\
+  desired_ok (nullify_last_applied d) = true /\
+  stringy_annots old = true /\
+  is_update (child_decision (ex_cfg "InPlace") (ex_kc "InPlace") ex_parent (Some ex_child) (ex_d (JInt 2))) = true.
+Proof. vm_compute. repeat split; try reflexivity. eexists. reflexivity. Qed.
+
+(* the theorem at work: an environment that meets C01_env, and the run of
+   sync against it — one hook call, one GET of the parent, SDone *)
+Definition ex_r0 : hook_resp :=
+  match decode_composite ex_body with Some r0 => r0 | None => mkHR JNull [] JNull true end.
+Definition ex_env : env :=
+  fun _ cl => match cl with
+              | CHook HCustomize _ => AHookErr
+              | CHook _ _ => AHook ex_body
+              | CApi _ => AObj ex_parent
+              end.
+
+Example C01_quiescent_example :
+  (forall h cl, C01_env (ex_cfg "InPlace") ex_parent ex_resp cl (ex_env h cl)) /\
+  map (fun ca => match fst ca with
+                 | CApi q => verb_eqb (q_verb q) VGet
+                 | CHook k _ => hook_kind_eqb k HSync end)
+      (trace_of (sync (ex_cfg "InPlace") ex_cache) ex_env) = [true; true] /\
+  result_of (sync (ex_cfg "InPlace") ex_cache) ex_env = SDone.
+Proof.
+  split.
+  - intros h cl. destruct cl as [q|hk body]; cbn [C01_env ex_env]; [intros _; reflexivity|].
+    destruct hk; try exact I; exists ex_body, ex_r0; (split; [reflexivity|]); split; vm_compute; reflexivity.
+  - vm_compute. split; reflexivity.
 Qed.
 
 (* ------------------------------------------------------------------ *)
